@@ -45,6 +45,9 @@ BASES = {
     # 0-d arrays (what indexing with [..., 0] or a reduction with keepdims hands over): mutable, unlike python scalars
     'z0': dict(state=lambda: np.array(2.5), slices={}),
 }
+# a longer vector with two DIFFERENT index arrays of more than four entries (and a short one) on the same signal
+BASES['v8'] = dict(state=lambda: np.arange(1., 9.),
+                   slices={'g': [np.array([0, 2, 4, 6, 7])], 'h': [np.array([1, 3, 5, 7, 0])], 'k': [np.array([7, 1])]})
 # the same bases with every sensitivity value of order 1e-9 (judged relative to 1e-9)
 BASES['v4t'] = dict(BASES['v4'], slices={k: BASES['v4']['slices'][k] for k in ('a', 'f', 'n', 'r')})
 BASES['m23t'] = dict(BASES['m23'], slices={k: BASES['m23']['slices'][k] for k in ('t', 'f', 'x')})
@@ -66,7 +69,7 @@ def value(kind, what, shape, seed, cplx):
 
 
 REDUCED = {'v4': ['a', 'f', 'n', 'R'], 'm23': ['t', 'f', 'x', 'X'], 'c3': ['a', 'f'], 't222': ['b', 'x'], 's': [], 'dy': [], 'z0': [],
-           'v4t': ['a', 'f', 'n'], 'm23t': ['t', 'f', 'x']}
+           'v4t': ['a', 'f', 'n'], 'm23t': ['t', 'f', 'x'], 'v8': ['g', 'h']}
 
 
 def as_dyad(v):
@@ -394,7 +397,7 @@ def generate(tier, seed):
                                                             (5, True)]
     for d, red in plan:
         yield {'__level__': f"depth{d}/{'reduced' if red else 'full'}"}
-        for kind in ('s', 'z0', 'dy', 'c3', 'v4', 'v4t', 'm23', 'm23t', 't222'):
+        for kind in ('s', 'z0', 'dy', 'c3', 'v4', 'v4t', 'v8', 'm23', 'm23t', 't222'):
             for ws in (False, True):
                 al = alphabet(kind, red)
                 if d <= 3:
